@@ -429,6 +429,36 @@ pub fn pumped(sigma: &[char], ks: &[usize]) -> Vec<String> {
     out
 }
 
+/// b a^k c: a run between two *different* other symbols (a base, a run of marks, one more
+/// mark; a letter, a run of spaces, a digit ...), over a small alphabet, for run lengths around
+/// 30, 32 and 64
+pub fn pumped3(sigma: &[char]) -> Vec<String> {
+    let mut out = Vec::new();
+    for &a in sigma {
+        for &b in sigma {
+            for &c in sigma {
+                if a == b || a == c {
+                    continue;
+                }
+                for k in [29usize, 30, 31, 32, 33, 63, 64, 65] {
+                    let mut s = String::new();
+                    s.push(b);
+                    for _ in 0..k {
+                        s.push(a);
+                    }
+                    s.push(c);
+                    out.push(s);
+                }
+            }
+        }
+    }
+    out
+}
+
+/// combining marks that differ in every respect a normaliser cares about: composes with Latin
+/// bases / never composes, combining class 230 / 220 / 1
+pub const MARKS: [char; 4] = ['\u{301}', '\u{305}', '\u{323}', '\u{334}'];
+
 pub const PUMP_LENGTHS: [usize; 14] = [6, 7, 8, 9, 15, 16, 17, 30, 31, 32, 33, 63, 64, 65];
 pub const PUMP_LENGTHS_LONG: [usize; 8] = [127, 128, 129, 255, 256, 257, 1023, 1025];
 /// around 2^16: a length or an offset kept in 16 bits
@@ -590,6 +620,14 @@ where
     huge.extend(mega(sigma, tier));
     let mut st = run_family_placed(&placed, &placements(tier), &f);
     st.merge(run_family(&long, &f));
+    // b a^k c over the first ten symbols and four marks of different behaviour
+    let mut tri: Vec<char> = sigma.iter().take(10).copied().collect();
+    for m in MARKS {
+        if !tri.contains(&m) {
+            tri.push(m);
+        }
+    }
+    st.merge(run_family(&pumped3(&tri), &f));
     st.merge(run_family(&huge, &f));
     // every run length up to a little over a page, for all pairs of the first three symbols
     let first: Vec<char> = sigma.iter().take(3).copied().collect();
